@@ -21,8 +21,31 @@ def ensure_installed():
         import lazy_dataset.parallel_utils as pu
         import lazy_dataset.core as core
         S.install(pu, extra_roots=(core.PrefetchDataset, core.ParMapDataset))
+        _wrap_cache(core)
         _INSTALLED = True
     return S.MONITOR
+
+
+def _wrap_cache(core):
+    """The memory cache is shared mutable state between prefetch workers: its reads and writes are visible
+    operations (label ('cache', id)), otherwise the partial-order reduction would treat them as local."""
+    cls = getattr(core, '_CacheWrapper', None)
+    if cls is None:
+        return
+    for name in ('__getitem__', '__setitem__', '__contains__'):
+        orig = getattr(cls, name, None)
+        if orig is None:
+            continue
+
+        def make(orig):
+            def wrapped(self, *a):
+                s = S.CUR
+                if s is not None and S.cur_thread() is not None:
+                    s.point(('cache', id(getattr(self, 'cache', self))))
+                return orig(self, *a)
+            wrapped.__name__ = orig.__name__
+            return wrapped
+        setattr(cls, name, make(orig))
 
 
 # --------------------------------------------------------------------------------------------------
@@ -262,6 +285,7 @@ def replay(cfg, choices, mode, oracle):
     """Re-run one recorded schedule twice; identical observations are required before it is believed."""
     a = run_one(cfg, choices, mode)
     b = run_one(cfg, choices, mode)
-    if a.trace != b.trace or a.key() != b.key():
+    shape = lambda ex: [(t, lab[0] if lab else None) for t, lab in ex.trace]      # noqa: E731
+    if shape(a) != shape(b) or a.key() != b.key() or a.log != b.log:
         raise common.HarnessError('the same schedule gave two different executions')
     return a, oracle(cfg, a)
